@@ -296,8 +296,9 @@ func (x Expr) Has(data any) bool {
 						default:
 							if rt := reflect.TypeOf(v); rt != nil {
 								switch rt.Kind() {
-								case reflect.Ptr, reflect.Slice, reflect.Struct, reflect.Array:
+								case reflect.Ptr, reflect.Slice, reflect.Struct, reflect.Array, reflect.Map:
 									stack = append(stack, v)
+									stack = append(stack, fi|descentChildFlag)
 								}
 							}
 						}
@@ -323,8 +324,9 @@ func (x Expr) Has(data any) bool {
 						default:
 							if rt := reflect.TypeOf(v); rt != nil {
 								switch rt.Kind() {
-								case reflect.Ptr, reflect.Slice, reflect.Struct, reflect.Array:
+								case reflect.Ptr, reflect.Slice, reflect.Struct, reflect.Array, reflect.Map:
 									stack = append(stack, v)
+									stack = append(stack, fi|descentChildFlag)
 								}
 							}
 						}
@@ -351,8 +353,9 @@ func (x Expr) Has(data any) bool {
 						default:
 							if rt := reflect.TypeOf(v); rt != nil {
 								switch rt.Kind() {
-								case reflect.Ptr, reflect.Slice, reflect.Struct, reflect.Array:
+								case reflect.Ptr, reflect.Slice, reflect.Struct, reflect.Array, reflect.Map:
 									stack = append(stack, v)
+									stack = append(stack, fi|descentChildFlag)
 								}
 							}
 						}
@@ -379,8 +382,9 @@ func (x Expr) Has(data any) bool {
 						default:
 							if rt := reflect.TypeOf(v); rt != nil {
 								switch rt.Kind() {
-								case reflect.Ptr, reflect.Slice, reflect.Struct, reflect.Array:
+								case reflect.Ptr, reflect.Slice, reflect.Struct, reflect.Array, reflect.Map:
 									stack = append(stack, v)
+									stack = append(stack, fi|descentChildFlag)
 								}
 							}
 						}
@@ -414,6 +418,25 @@ func (x Expr) Has(data any) bool {
 						v = tv[i]
 						switch v.(type) {
 						case map[string]any, []any, gen.Object, gen.Array, Keyed, Indexed:
+							stack = append(stack, v)
+							stack = append(stack, fi|descentChildFlag)
+						}
+					}
+				default:
+					got := reflectGetWild(tv)
+					stack[len(stack)-1] = prev
+					stack = append(stack, di|descentFlag)
+					if int(fi) == len(x)-1 { // last one
+						if 0 < len(got) {
+							return true
+						}
+					}
+					for _, v = range got {
+						switch v.(type) {
+						case nil, bool, string, float64, float32,
+							int, uint, int8, int16, int32, int64, uint8, uint16, uint32, uint64,
+							gen.Bool, gen.Int, gen.Float, gen.String:
+						default:
 							stack = append(stack, v)
 							stack = append(stack, fi|descentChildFlag)
 						}
